@@ -60,8 +60,8 @@ theorem okeys_oset (m : List (Cand × Option Rat)) (c : Cand) (x : Option Rat) (
 def mmStep (m : List (Cand × Option Rat)) (e : Pair × Rat) : List (Cand × Option Rat) :=
   oset m e.1.2 (omax (oget m e.1.2) e.2)
 
-theorem maxCounterscore_eq (sc : Scorer) (v : Pairwise) :
-    maxCounterscore sc v = (scorePairs sc v).foldl mmStep ((candidates v).map (fun c => (c, none))) := by
+theorem minimaxTable_eq (sc : Scorer) (v : Pairwise) :
+    minimaxTable sc v = (scorePairs sc (allPairs v)).foldl mmStep ((candidates v).map (fun c => (c, none))) := by
   rfl
 
 theorem oget_mmFold (sp : Pairwise) (m : List (Cand × Option Rat)) (c : Cand) :
@@ -154,29 +154,74 @@ theorem scorePairs_eq (sc : Scorer) (v : Pairwise) : scorePairs sc v = v.map (fu
 def defeatsOf (sc : Scorer) (v : Pairwise) (c : Cand) : List Rat :=
   (v.filter (fun e => e.1.2 = c)).map (scoreOf sc v)
 
-theorem oget_maxCounterscore (sc : Scorer) (v : Pairwise) (c : Cand) :
-    oget (maxCounterscore sc v) c = (defeatsOf sc v c).foldl omax none := by
-  rw [maxCounterscore_eq, oget_mmFold, scorePairs_eq]
-  have h0 : oget ((candidates v).map (fun c => (c, (none : Option Rat)))) c = none := by
-    unfold oget
-    cases hf : ((candidates v).map (fun c => (c, (none : Option Rat)))).find? (fun e => e.1 = c) with
-    | none => rfl
-    | some e =>
-      have := List.mem_of_find?_eq_some hf
-      obtain ⟨x, _, rfl⟩ := List.mem_map.1 this
-      rfl
-  rw [h0]
+theorem oget_noneDict (cands : List Cand) (c : Cand) :
+    oget (cands.map (fun c => (c, (none : Option Rat)))) c = none := by
+  unfold oget
+  cases hf : (cands.map (fun c => (c, (none : Option Rat)))).find? (fun e => e.1 = c) with
+  | none => rfl
+  | some e =>
+    have := List.mem_of_find?_eq_some hf
+    obtain ⟨x, _, rfl⟩ := List.mem_map.1 this
+    rfl
+
+theorem oget_minimaxTable (sc : Scorer) (v : Pairwise) (c : Cand) :
+    oget (minimaxTable sc v) c = (defeatsOf sc (allPairs v) c).foldl omax none := by
+  rw [minimaxTable_eq, oget_mmFold, scorePairs_eq, oget_noneDict]
   congr 1
   simp [defeatsOf, List.filter_map, List.map_map, Function.comp_def]
 
-theorem okeys_maxCounterscore (sc : Scorer) (v : Pairwise) : okeys (maxCounterscore sc v) = candidates v := by
-  rw [maxCounterscore_eq, okeys_mmFold]
+theorem mem_allPairs {v : Pairwise} {e : Pair × Rat} :
+    e ∈ allPairs v ↔ ∃ u ∈ candidates v, ∃ l ∈ candidates v, u ≠ l ∧ e = ((u, l), pget v (u, l)) := by
+  simp only [allPairs, List.mem_filter, List.mem_flatMap, List.mem_map, bne_iff_ne, ne_eq]
+  constructor
+  · rintro ⟨⟨u, hu, l, hl, rfl⟩, hne⟩
+    exact ⟨u, hu, l, hl, hne, rfl⟩
+  · rintro ⟨u, hu, l, hl, hne, rfl⟩
+    exact ⟨⟨u, hu, l, hl, rfl⟩, hne⟩
+
+theorem okeys_minimaxTable (sc : Scorer) (v : Pairwise) : okeys (minimaxTable sc v) = candidates v := by
+  rw [minimaxTable_eq, okeys_mmFold]
   · simp [okeys, List.map_map, Function.comp_def]
   · intro e he
     rw [scorePairs_eq] at he
     obtain ⟨e', he', rfl⟩ := List.mem_map.1 he
+    obtain ⟨u, _, l, hl, _, rfl⟩ := mem_allPairs.1 he'
     simp only [okeys, List.map_map, Function.comp_def, List.map_id']
-    exact snd_mem_candidates he'
+    exact hl
+
+/-- `all_pairs.get((a, b), 0)` is `votes.get((a, b), 0)` for two distinct candidates -/
+theorem pget_allPairs {v : Pairwise} {a b : Cand} (ha : a ∈ candidates v) (hb : b ∈ candidates v) (hne : a ≠ b) :
+    pget (allPairs v) (a, b) = pget v (a, b) := by
+  rcases pget_mem_or_zero (allPairs v) (a, b) with h | ⟨h, _⟩
+  · obtain ⟨u, _, l, _, _, heq⟩ := mem_allPairs.1 h
+    simp only [Prod.mk.injEq] at heq
+    obtain ⟨⟨rfl, rfl⟩, h2⟩ := heq
+    exact h2
+  · exfalso
+    apply h
+    exact List.mem_map.2 ⟨((a, b), pget v (a, b)), mem_allPairs.2 ⟨a, ha, b, hb, hne, rfl⟩, rfl⟩
+
+/-- the strength of "`o` over `c`" under a scorer, from `d x y = votes.get((x, y), 0)` alone -/
+def pairScore (sc : Scorer) (v : Pairwise) (o c : Cand) : Rat :=
+  match sc with
+  | .winningVotes => if pget v (c, o) < pget v (o, c) then pget v (o, c) else 0
+  | .margins => pget v (o, c) - pget v (c, o)
+  | .pairwiseOpposition => pget v (o, c)
+
+theorem mem_defeatsOf_allPairs {sc : Scorer} {v : Pairwise} {c : Cand} {t : Rat} :
+    t ∈ defeatsOf sc (allPairs v) c ↔
+      ∃ o ∈ candidates v, c ∈ candidates v ∧ o ≠ c ∧ t = pairScore sc v o c := by
+  simp only [defeatsOf, List.mem_map, List.mem_filter, decide_eq_true_eq]
+  constructor
+  · rintro ⟨e, ⟨he, hec⟩, rfl⟩
+    obtain ⟨u, hu, l, hl, hne, rfl⟩ := mem_allPairs.1 he
+    simp only at hec
+    subst hec
+    refine ⟨u, hu, hl, hne, ?_⟩
+    cases sc <;> simp only [scoreOf, pairScore, pget_allPairs hl hu (fun h => hne h.symm)]
+  · rintro ⟨o, ho, hc, hne, rfl⟩
+    refine ⟨((o, c), pget v (o, c)), ⟨mem_allPairs.2 ⟨o, ho, c, hc, hne, rfl⟩, rfl⟩, ?_⟩
+    cases sc <;> simp only [scoreOf, pairScore, pget_allPairs hc ho (fun h => hne h.symm)]
 
 theorem oget_of_mem {m : List (Cand × Option Rat)} (hk : (okeys m).Nodup) {e : Cand × Option Rat} (he : e ∈ m) :
     oget m e.1 = e.2 := by
@@ -214,27 +259,27 @@ def mmVal (big : Rat) : Option Rat → Rat
   | none => big
 
 theorem minimax_eq (sc : Scorer) (v : Pairwise) (n : Nat) :
-    minimax sc v n = getNBest ((maxCounterscore sc v).map
-      (fun e => (e.1, mmVal (minimaxBig (maxCounterscore sc v)) e.2))) n := by
+    minimax sc v n = getNBest ((minimaxTable sc v).map
+      (fun e => (e.1, mmVal (minimaxBig (minimaxTable sc v)) e.2))) n := by
   rfl
 
 /-- **Condorcet winner under minimax** when every defeat score of the winner is `≤ 0` and everybody else
     has a positive one -/
 theorem minimax_cw_of_scores (sc : Scorer) (v : Pairwise) {w : Cand} (hw : w ∈ candidates v)
-    (hwin : ∀ t ∈ defeatsOf sc v w, t ≤ 0)
-    (hlose : ∀ o ∈ candidates v, o ≠ w → ∃ t ∈ defeatsOf sc v o, 0 < t) :
+    (hwin : ∀ t ∈ defeatsOf sc (allPairs v) w, t ≤ 0)
+    (hlose : ∀ o ∈ candidates v, o ≠ w → ∃ t ∈ defeatsOf sc (allPairs v) o, 0 < t) :
     minimax sc v 1 = [Slot.cand w] := by
   rw [minimax_eq]
-  set m := maxCounterscore sc v with hm
+  set m := minimaxTable sc v with hm
   set big := minimaxBig m with hbig
-  have hkeys : okeys m = candidates v := okeys_maxCounterscore sc v
+  have hkeys : okeys m = candidates v := okeys_minimaxTable sc v
   have hnd : (okeys m).Nodup := by rw [hkeys]; exact nodup_candidates v
   have hwv : 0 ≤ mmVal big (oget m w) := by
     cases hg : oget m w with
     | none => simp only [mmVal]; have := minimaxBig_pos m; linarith
     | some s =>
       simp only [mmVal]
-      rw [hm, oget_maxCounterscore] at hg
+      rw [hm, oget_minimaxTable] at hg
       have := omaxFold_le _ none hwin (by simp) hg
       linarith
   have hwm : ∃ e ∈ m, e.1 = w := by
@@ -253,11 +298,135 @@ theorem minimax_cw_of_scores (sc : Scorer) (v : Pairwise) {w : Cand} (hw : w ∈
     have heo : e.1 ∈ candidates v := by rw [← hkeys]; exact List.mem_map.2 ⟨e, he, rfl⟩
     obtain ⟨t, ht, htpos⟩ := hlose e.1 heo hne
     have hg := oget_of_mem hnd he
-    rw [hm, oget_maxCounterscore] at hg
-    obtain ⟨s, hs, hts⟩ := omaxFold_ge (defeatsOf sc v e.1) none ht
+    rw [hm, oget_minimaxTable] at hg
+    obtain ⟨s, hs, hts⟩ := omaxFold_ge (defeatsOf sc (allPairs v) e.1) none ht
     rw [hs] at hg
     have h2 : mmVal big e.2 = -s := by rw [← hg]; rfl
     rw [h2]
     linarith
+/-! ### the worst defeat over all opponents -/
+
+theorem omaxFold_mem (l : List Rat) (a : Option Rat) {s : Rat} (h : l.foldl omax a = some s) : a = some s ∨ s ∈ l := by
+  induction l generalizing a with
+  | nil => exact Or.inl h
+  | cons x xs ih =>
+    rw [List.foldl_cons] at h
+    rcases ih _ h with h1 | h1
+    · cases a with
+      | none =>
+        simp only [omax, Option.some.injEq] at h1
+        exact Or.inr (by simp [h1])
+      | some a0 =>
+        simp only [omax, Option.some.injEq] at h1
+        unfold rmax at h1
+        split at h1
+        · exact Or.inr (by simp [h1])
+        · exact Or.inl (by rw [h1])
+    · exact Or.inr (List.mem_cons_of_mem _ h1)
+
+theorem omaxFold_none (l : List Rat) (h : l.foldl omax none = none) : l = [] := by
+  cases l with
+  | nil => rfl
+  | cons x xs =>
+    rw [List.foldl_cons] at h
+    obtain ⟨s, hs, _⟩ := omaxFold_some xs x
+    simp only [omax] at h
+    rw [hs] at h
+    simp at h
+
+
+/-- the worst defeat of `c`: the maximum strength of "`o` over `c`" over ALL other candidates `o`
+    (`0` only in the degenerate case of a lone candidate) -/
+def worstDefeat (sc : Scorer) (v : Pairwise) (c : Cand) : Rat :=
+  ((((candidates v).filter (fun o => decide (o ≠ c))).map (fun o => pairScore sc v o c)).foldl omax none).getD 0
+
+/-- `s` is the maximum of the strengths of all opponents over `c` -/
+def IsWorstDefeat (sc : Scorer) (v : Pairwise) (c : Cand) (s : Rat) : Prop :=
+  (∃ o ∈ candidates v, o ≠ c ∧ s = pairScore sc v o c) ∧ ∀ o ∈ candidates v, o ≠ c → pairScore sc v o c ≤ s
+
+theorem IsWorstDefeat.unique {sc : Scorer} {v : Pairwise} {c : Cand} {s s' : Rat}
+    (h : IsWorstDefeat sc v c s) (h' : IsWorstDefeat sc v c s') : s = s' := by
+  obtain ⟨⟨o, ho, hne, rfl⟩, hmax⟩ := h
+  obtain ⟨⟨o', ho', hne', rfl⟩, hmax'⟩ := h'
+  exact le_antisymm (hmax' o ho hne) (hmax o' ho' hne')
+
+theorem worstDefeat_spec {sc : Scorer} {v : Pairwise} {c : Cand} (hopp : ∃ o ∈ candidates v, o ≠ c) :
+    IsWorstDefeat sc v c (worstDefeat sc v c) := by
+  unfold worstDefeat
+  set L := ((candidates v).filter (fun o => decide (o ≠ c))).map (fun o => pairScore sc v o c) with hL
+  have hmemL : ∀ t, t ∈ L ↔ ∃ o ∈ candidates v, o ≠ c ∧ t = pairScore sc v o c := by
+    intro t
+    simp only [hL, List.mem_map, List.mem_filter, decide_eq_true_eq]
+    constructor
+    · rintro ⟨o, ⟨ho, hne⟩, rfl⟩; exact ⟨o, ho, hne, rfl⟩
+    · rintro ⟨o, ho, hne, rfl⟩; exact ⟨o, ⟨ho, hne⟩, rfl⟩
+  cases h : L.foldl omax none with
+  | none =>
+    exfalso
+    have := omaxFold_none L h
+    obtain ⟨o, ho, hne⟩ := hopp
+    have hm : pairScore sc v o c ∈ L := (hmemL _).2 ⟨o, ho, hne, rfl⟩
+    rw [this] at hm
+    simp at hm
+  | some s =>
+    simp only [Option.getD_some]
+    refine ⟨?_, fun o ho hne => ?_⟩
+    · rcases omaxFold_mem L none h with h1 | h1
+      · simp at h1
+      · exact (hmemL s).1 h1
+    · obtain ⟨s', hs', hle⟩ := omaxFold_ge L none ((hmemL _).2 ⟨o, ho, hne, rfl⟩)
+      rw [h] at hs'
+      simp only [Option.some.injEq] at hs'
+      rw [hs']; exact hle
+
+/-- the table entry of a candidate with an opponent is its worst defeat over all opponents -/
+theorem oget_minimaxTable_eq {sc : Scorer} {v : Pairwise} {c : Cand} (hc : c ∈ candidates v)
+    (hopp : ∃ o ∈ candidates v, o ≠ c) : oget (minimaxTable sc v) c = some (worstDefeat sc v c) := by
+  rw [oget_minimaxTable]
+  obtain ⟨o, ho, hne⟩ := hopp
+  have hm : pairScore sc v o c ∈ defeatsOf sc (allPairs v) c := mem_defeatsOf_allPairs.2 ⟨o, ho, hc, hne, rfl⟩
+  cases h : (defeatsOf sc (allPairs v) c).foldl omax none with
+  | none =>
+    have := omaxFold_none _ h
+    rw [this] at hm
+    simp at hm
+  | some s =>
+    congr 1
+    have hs : IsWorstDefeat sc v c s := by
+      refine ⟨?_, fun o' ho' hne' => ?_⟩
+      · rcases omaxFold_mem _ none h with h1 | h1
+        · simp at h1
+        · obtain ⟨o', ho', _, hne', rfl⟩ := mem_defeatsOf_allPairs.1 h1
+          exact ⟨o', ho', hne', rfl⟩
+      · obtain ⟨s', hs', hle⟩ := omaxFold_ge (defeatsOf sc (allPairs v) c) none
+          (mem_defeatsOf_allPairs.2 ⟨o', ho', hc, hne', rfl⟩)
+        rw [h] at hs'
+        simp only [Option.some.injEq] at hs'
+        rw [hs']; exact hle
+    exact hs.unique (worstDefeat_spec ⟨o, ho, hne⟩)
+
+/-- **minimax ranks by the negated worst defeat over all opponents** (every candidate has an opponent) -/
+theorem minimax_by_worstDefeat (sc : Scorer) (v : Pairwise) (n : Nat)
+    (hopp : ∀ c ∈ candidates v, ∃ o ∈ candidates v, o ≠ c) :
+    minimax sc v n = getNBest ((candidates v).map (fun c => (c, -(worstDefeat sc v c)))) n := by
+  rw [minimax_eq]
+  set m := minimaxTable sc v with hm
+  have hkeys : okeys m = candidates v := okeys_minimaxTable sc v
+  have hnd : (okeys m).Nodup := by rw [hkeys]; exact nodup_candidates v
+  have h1 : m.map (fun e => (e.1, mmVal (minimaxBig m) e.2)) =
+      m.map (fun e => (e.1, -(worstDefeat sc v e.1))) := by
+    apply List.map_congr_left
+    intro e he
+    have hec : e.1 ∈ candidates v := by rw [← hkeys]; exact List.mem_map.2 ⟨e, he, rfl⟩
+    have h2 := oget_of_mem hnd he
+    rw [hm, oget_minimaxTable_eq hec (hopp _ hec)] at h2
+    rw [← h2]; rfl
+  rw [h1]
+  congr 1
+  have : m.map (fun e => (e.1, -(worstDefeat sc v e.1))) =
+      (okeys m).map (fun c => (c, -(worstDefeat sc v c))) := by
+    simp [okeys, List.map_map, Function.comp_def]
+  rw [this, hkeys]
+
 
 end VL.Condorcet
